@@ -463,9 +463,7 @@ func (t *Tokenizer) Tokenize(input []byte) ([]models.TokenWithSpan, error) {
 				return
 			}
 
-			startPos := t.pos
-
-			token, err := t.nextToken()
+			token, startPos, err := t.nextToken()
 			if err != nil {
 				// nextToken returns structured errors, pass through directly
 				tokenErr = err
@@ -603,9 +601,7 @@ func (t *Tokenizer) TokenizeContext(ctx context.Context, input []byte) ([]models
 				return
 			}
 
-			startPos := t.pos
-
-			token, err := t.nextToken()
+			token, startPos, err := t.nextToken()
 			if err != nil {
 				// nextToken returns structured errors, pass through directly
 				tokenErr = err
@@ -681,15 +677,18 @@ func (t *Tokenizer) skipWhitespace() {
 }
 
 // nextToken picks out the next token from the input
-func (t *Tokenizer) nextToken() (models.Token, error) {
+func (t *Tokenizer) nextToken() (models.Token, Position, error) {
 	// Comments are skipped by scanning again in a loop, not by recursion: an
 	// input consisting of millions of comments must not grow the stack.
+	// The start of the token is taken again after each skipped comment, so a
+	// token that follows a comment begins at its own first character.
 	for {
+		start := t.pos
 		tok, err := t.scanToken()
 		if err == errCommentSkipped {
 			continue
 		}
-		return tok, err
+		return tok, start, err
 	}
 }
 
